@@ -526,11 +526,21 @@ impl AsEntry {
         &self,
         path_segment: &'seg PathSegment<SignedAsEntry>,
     ) -> (usize, impl Iterator<Item = &'seg [u8]>) {
+        // The position of the current entry in the path segment. An entry that is part of the
+        // segment is found by identity: looking it up by value would stop at an earlier, equal
+        // entry, so that a replayed copy of an entry validates at a later position as well.
+        let position = path_segment
+            .as_entries
+            .iter()
+            .position(|e| std::ptr::eq(&e.entry, self))
+            .or_else(|| path_segment.as_entries.iter().position(|e| e.entry == *self))
+            .unwrap_or(path_segment.as_entries.len());
+
         let entry_iter = path_segment
             .as_entries
             .iter()
             // Take all entries before the current one in the path segment.
-            .take_while(|e| e.entry != *self)
+            .take(position)
             .flat_map(|entry| {
                 [
                     entry.signed.header_and_body.as_slice(),
